@@ -86,6 +86,14 @@ CHECKS['C18'] = ('explicit-state breadth-first search over index documents produ
                  'deduplication; in every state: identity/enterprise/compliance entries present, every indexed OID covered by a '
                  'component-wise prefix naming its module, modules listed only under OIDs they define, re-indexing is a no-op.',
                  '5.C18')
+CHECKS['C13'] = ('fault enumeration over discovered system-call sites of the real writers (every occurrence x every fault kind, '
+                 '<=1 / <=2 faults) on a scratch directory; exhaustive interleaving exploration of two writers under a '
+                 'cooperative scheduler',
+                 'The os / tempfile / py_compile names inside the writer modules are replaced by recording proxies; call sites are '
+                 'discovered from the fault-free trace and each is failed in every way it can fail (errno errors, short and partial '
+                 'writes, access()=False, byte-compile errors); after every execution the destination must hold the old or the new '
+                 'complete content, no stray entry, only PySmiWriterError may escape, normal return implies the new content; '
+                 'dry-run leaves the tree unchanged; all interleavings of two writers of the same module are explored.', '5.C13')
 NOT_YET = {}
 
 ALL = ['C%02d' % i for i in range(1, 21)]
